@@ -503,6 +503,13 @@ def run(ck):
             if isinstance(a, T.App) and a.op == "ctr":
                 w = _word(a.args[0])
                 return None if w is None else [_flip(x, "+") for x in reversed(w)]
+            if isinstance(a, T.App) and a.op == "stack0" and len(a.args) == 2:
+                # the element-wise conjugate written on the pair: (re X, -im X) - no exchange of axes, (A B)* = A* B*
+                r0 = a.args[0].single_atom() if hasattr(a.args[0], "single_atom") else None
+                if isinstance(r0, T.App) and r0.op == "idx0" and r0.args[1] == 0 and a.args[1] == -T.idx0(r0.args[0], 1):
+                    w = _word(r0.args[0])
+                    return None if w is None else [_flip(x, "*") for x in w]
+                return None
             if isinstance(a, T.App) and a.op == "transpose" and len(a.args) == 3 and {a.args[1], a.args[2]} in ({1, 2}, {-1, -2}):
                 # the matrix axes exchanged without conjugation: (A B)^T = B^T A^T
                 w = _word(a.args[0])
@@ -516,6 +523,8 @@ def run(ck):
             tr_ = ("+" in marks) != ("T" in marks)
             if mark == "+":
                 conj_, tr_ = not conj_, not tr_
+            elif mark == "*":
+                conj_ = not conj_
             else:
                 tr_ = not tr_
             return name + ("+" if conj_ and tr_ else "*" if conj_ else "T" if tr_ else "")
